@@ -3,12 +3,23 @@
 Domain: role (client / server tested) x every message type 0..255 that the tested side has no
 handler for in its post-authentication state (the handled set is read from the live dispatch
 tables only to choose the domain) x random payload 0..300 bytes; several probes per session.
+Two further dimensions of "every unhandled type ... in the current role and state":
+  * when the probe arrives relative to a key re-exchange (field 3 of a probe): None, "puppet" / "tested"
+    (a re-exchange started by that side has completed right before the probe), or "cross": the tested
+    side starts a re-exchange (renegotiate_keys()) and the probe + sentinel cross its KEXINIT on the wire,
+    i.e. they arrive while the tested side's own KEXINIT is outstanding and the peer's has not come yet
+    (the puppet emits them from its reader thread on receipt of that KEXINIT, before answering it);
+  * the process-wide logging configuration the session runs under (case["log"]): untouched, or the
+    level of the "paramiko" logger / of a per-transport log channel (Transport.set_log_channel) / the
+    logging.disable() threshold set to one of DEBUG..CRITICAL. It is set before the session is built and
+    restored afterwards (vlib.core only installs a NullHandler, which this does not touch).
 Oracle (sentinel ordering, no sleeps): the puppet peer sends probe with outbound sequence number
 s, then a sentinel GLOBAL_REQUEST(want_reply). Everything the tested side sends up to the
 sentinel's REQUEST_FAILURE must be exactly one UNIMPLEMENTED(s) for a probe != 3 and nothing
 for probe == 3 (UNIMPLEMENTED itself is never answered). Afterwards the transport is active and
 a channel round trip still works.
 """
+import logging
 import threading
 
 from hypothesis import strategies as st
@@ -20,9 +31,11 @@ PROPERTY = "C12"
 LEVEL = "exploration"
 RULE = (
     "role x unhandled message type (0..255 minus the tested side's live dispatch tables, "
-    "and DISCONNECT/IGNORE/DEBUG which have dedicated semantics) x random payload x optional completed re-exchange (either initiator) right before the probe; quick enumerates every "
-    "(role,type) once (exhaustive over type x role) plus hypothesis-drawn multi-probe sessions; non-trivial = probe type "
-    "without a debug name in paramiko.common.MSG_NAMES, or >= 3 probes in one session; distinct by (role, types, payloads)"
+    "and DISCONNECT/IGNORE/DEBUG which have dedicated semantics) x random payload x timing relative to a key re-exchange {none, right after a completed "
+    "re-exchange started by either side, crossing the KEXINIT of a re-exchange the tested side started (probe handled while its own KEXINIT is outstanding)} "
+    "x process logging configuration {untouched, level of the paramiko logger / of a per-transport log channel / logging.disable threshold at DEBUG..CRITICAL}; "
+    "quick enumerates every (role,type) once (exhaustive over type x role, logging configuration drawn per session) plus hypothesis-drawn multi-probe sessions; "
+    "non-trivial = probe type without a debug name in paramiko.common.MSG_NAMES, or >= 3 probes in one session; distinct by (role, types, payloads, timing, logging)"
 )
 
 SENTINEL = b"verif-sentinel@verif"
@@ -35,15 +48,72 @@ def _handled(t):
     return hs
 
 
-def _session(role):
+class HookPacketizer(peers.RecPacketizer):
+    """RecPacketizer plus a one-shot hook that runs in the puppet's reader thread when a KEXINIT of the
+    peer has been read, i.e. before the puppet's transport gets to answer it with its own KEXINIT."""
+
+    on_kexinit = None
+
+    def read_message(self):
+        ptype, m = peers.RecPacketizer.read_message(self)
+        if ptype == 20:
+            hook, self.on_kexinit = self.on_kexinit, None
+            if hook is not None:
+                hook()
+        return ptype, m
+
+
+LOG_CHANNEL = "paramiko.verif-c12"  # below "paramiko": ends in core's NullHandler, never on stderr
+LOG_WHERE = ("package", "channel", "disable")
+LOG_LEVELS = ("DEBUG", "INFO", "WARNING", "ERROR", "CRITICAL")
+
+
+class LogConfig:
+    """Apply case["log"] = [where, levelname] (or None) to the process; restore() undoes exactly that."""
+
+    def __init__(self, cfg):
+        self.cfg = tuple(cfg) if cfg else None
+        self.undo = []
+
+    def apply(self):
+        if not self.cfg:
+            return
+        where, level = self.cfg[0], getattr(logging, self.cfg[1])
+        if where == "disable":
+            old = logging.root.manager.disable
+            self.undo.append(lambda: logging.disable(old))
+            logging.disable(level)
+        else:
+            lg = logging.getLogger("paramiko" if where == "package" else LOG_CHANNEL)
+            old = lg.level
+            self.undo.append(lambda: lg.setLevel(old))
+            lg.setLevel(level)
+
+    def on_transport(self, t):
+        if self.cfg and self.cfg[0] == "channel":
+            t.set_log_channel(LOG_CHANNEL)
+
+    def restore(self):
+        while self.undo:
+            self.undo.pop()()
+
+
+def _log_enabled(t, level):
+    return logging.getLogger(t.get_log_channel()).isEnabledFor(level)
+
+
+def _session(role, logcfg=None):
     """Returns (link, tested, puppet). Tested side authenticated, puppet in raw mode."""
+    pk = {"packetizer_class": HookPacketizer}
     if role == "client":
-        link, tc, ts, srv = peers.connected_pair(client_cls=peers.VTransport, server_cls=peers.Puppet)
+        link, tc, ts, srv = peers.connected_pair(client_cls=peers.VTransport, server_cls=peers.Puppet, server_kw=pk)
         tested, puppet = tc, ts
     else:
         srv = peers.RecordingServer({"check_auth_password": peers.AUTH_SUCCESSFUL, "check_global_request": False})
-        link, tc, ts, srv = peers.connected_pair(client_cls=peers.Puppet, server_cls=peers.VTransport, server_obj=srv)
+        link, tc, ts, srv = peers.connected_pair(client_cls=peers.Puppet, server_cls=peers.VTransport, server_obj=srv, client_kw=pk)
         tested, puppet = ts, tc
+    if logcfg is not None:
+        logcfg.on_transport(tested)
     puppet.raw()
     return link, tested, puppet
 
@@ -54,15 +124,64 @@ def excluded_types(tested):
     return _handled(tested) | {1, 2, 4}
 
 
-def probe_session(ctx, role, probes, record=True):
-    """probes: list of (type, payload). Returns False if a violation was reported."""
+def _cross_rekey(tested, puppet, payload):
+    """The tested side starts a re-exchange; the puppet emits payload + sentinel when that KEXINIT arrives,
+    before answering it. Returns (seqno of the probe or None, error text or None, crossed: bool)."""
+    box = {}
+
+    def hook():
+        try:
+            box["s"] = puppet.send_raw_seq(payload)
+            puppet.send_raw_seq(peers.m_global_request(SENTINEL, True))
+        except Exception as e:  # the puppet's reader thread must survive; reported by the caller
+            box["e"] = e
+
+    def rekey():
+        try:
+            tested.renegotiate_keys()
+        except Exception as e:
+            box["rk"] = e
+
+    puppet.packetizer.on_kexinit = hook
+    th = threading.Thread(target=rekey, daemon=True, name="c12-rekey")
+    th.start()
+    th.join(20)
+    puppet.packetizer.on_kexinit = None
+    if th.is_alive():
+        return box.get("s"), "renegotiate_keys() still running after 20 s", "s" in box
+    if "rk" in box:
+        return box.get("s"), repr(box["rk"]), "s" in box
+    if "e" in box:
+        return None, "puppet could not send inside the window: %r" % (box["e"],), False
+    if "s" not in box:
+        # hook not reached (the puppet's KEXINIT did not pass the packetizer hook): degrade to "right after a
+        # completed re-exchange started by the tested side"
+        s = puppet.send_raw_seq(payload)
+        puppet.send_raw_seq(peers.m_global_request(SENTINEL, True))
+        return s, None, False
+    return box["s"], None, True
+
+
+def probe_session(ctx, role, probes, record=True, log=None):
+    """probes: list of (type, payload[, rekey timing]). Returns False if a violation was reported."""
+    logcfg = LogConfig(log)
+    logcfg.apply()
+    try:
+        return _probe_session(ctx, role, probes, record, logcfg)
+    finally:
+        logcfg.restore()
+
+
+def _probe_session(ctx, role, probes, record, logcfg):
     import paramiko
 
     from paramiko.common import MSG_NAMES
 
     probes = [tuple(p) if len(p) == 3 else (p[0], p[1], None) for p in probes]
     case = {"role": role, "probes": [[t, p, rk] for t, p, rk in probes]}
-    link, tested, puppet = _session(role)
+    if logcfg.cfg:
+        case["log"] = list(logcfg.cfg)
+    link, tested, puppet = _session(role, logcfg)
     try:
         excl = excluded_types(tested)
         probes = [(t, p, rk) for t, p, rk in probes if t not in excl]
@@ -70,22 +189,34 @@ def probe_session(ctx, role, probes, record=True):
             return True
         nontrivial = any(t not in MSG_NAMES for t, _, _ in probes) or len(probes) >= 3
         if record:
-            ctx.case(
-                case,
-                nontrivial,
-                ["role:" + role] + ["unnamed" if t not in MSG_NAMES else "named" for t, _, _ in probes] + ["rekey-before-probe:%s" % rk for _, _, rk in probes if rk],
-            )
+            cls = ["role:" + role] + ["unnamed" if t not in MSG_NAMES else "named" for t, _, _ in probes]
+            cls += ["rekey-before-probe:%s" % rk for _, _, rk in probes if rk and rk != "cross"]
+            cls += ["probe-crosses-own-kexinit" for _, _, rk in probes if rk == "cross"]
+            if logcfg.cfg:
+                cls += ["log:%s" % logcfg.cfg[0], "log:%s=%s" % logcfg.cfg]
+                cls.append("log:WARNING-" + ("enabled" if _log_enabled(tested, logging.WARNING) else "disabled"))
+            else:
+                cls.append("log:untouched")
+            ctx.case(case, nontrivial, cls)
         seen = 0
         for t, payload, rk in probes:
-            if rk:
-                # a completed re-exchange right before the probe (strict kex: sequence numbers restart)
-                try:
-                    (puppet if rk == "puppet" else tested).renegotiate_keys()
-                except Exception as e:
-                    ctx.violation("session-continues", "%s:rekey-failed" % role, case, repr(e))
+            if rk == "cross":
+                s, err, crossed = _cross_rekey(tested, puppet, bytes([t]) + payload)
+                if err:
+                    ctx.violation("session-continues", "%s:rekey-failed" % role, case, "probe type %d crossing the tested side's KEXINIT: %s" % (t, err))
                     return False
-            s = puppet.send_raw_seq(bytes([t]) + payload)
-            puppet.send_raw_seq(peers.m_global_request(SENTINEL, True))
+                if record:
+                    ctx.count("cross:probe-sent-inside-own-kexinit-window" if crossed else "cross:degraded-to-after-rekey")
+            else:
+                if rk:
+                    # a completed re-exchange right before the probe (strict kex: sequence numbers restart)
+                    try:
+                        (puppet if rk == "puppet" else tested).renegotiate_keys()
+                    except Exception as e:
+                        ctx.violation("session-continues", "%s:rekey-failed" % role, case, repr(e))
+                        return False
+                s = puppet.send_raw_seq(bytes([t]) + payload)
+                puppet.send_raw_seq(peers.m_global_request(SENTINEL, True))
             # wait for the sentinel's reply (REQUEST_FAILURE) or for the session to die
             def got(lg, seen=seen):
                 if any(e[1] == 82 for e in lg[seen:]):
@@ -117,6 +248,13 @@ def probe_session(ctx, role, probes, record=True):
                 good = len(before) == 1 and before[0][1] == 3 and before[0][2] == R.u32(s)
                 if not good:
                     kind = "missing" if not before else ("wrong-seqno" if len(before) == 1 and before[0][1] == 3 else "other-reply")
+                    # circumstances that narrow the root cause (plain bucket when none applies)
+                    if rk == "cross":
+                        kind += "@own-kexinit-outstanding"
+                    if not _log_enabled(tested, logging.WARNING):
+                        kind += "@warning-logging-disabled"
+                    elif _log_enabled(tested, logging.DEBUG):
+                        kind += "@debug-logging-enabled"
                     ctx.violation("unimplemented-reply", "%s:%s" % (role, kind), case, "probe type %d seq %d: replies %r" % (t, s, [(e[1], e[2][:8].hex()) for e in before]))
                     return False
         # the session still works: channel round trip driven from the tested side if client,
@@ -159,6 +297,7 @@ def probe_session(ctx, role, probes, record=True):
 
 
 payloads = st.one_of(st.just(b""), st.binary(max_size=300), st.binary(min_size=4, max_size=4))
+logcfgs = st.one_of(st.none(), st.tuples(st.sampled_from(LOG_WHERE), st.sampled_from(LOG_LEVELS)))
 
 
 def run(ctx):
@@ -173,25 +312,26 @@ def run(ctx):
     mine = [s for i, s in enumerate(sessions) if i % ctx.nworkers == ctx.worker]
     covered = set()
 
-    def enum_body(pl):
+    def enum_body(c):
         if not mine:
             return
+        pl, log = c
         role, ts_ = mine.pop()
         probes = [(t, pl[i % len(pl)], None) for i, t in enumerate(ts_)]
-        probe_session(ctx, role, probes)
+        probe_session(ctx, role, probes, log=log)
         covered.update((role, t) for t in ts_)
 
     n_enum = len(mine)
-    ctx.explore(st.lists(payloads, min_size=1, max_size=16), enum_body, n_enum, shrink=False)
+    ctx.explore(st.tuples(st.lists(payloads, min_size=1, max_size=16), logcfgs), enum_body, n_enum, shrink=False)
     ctx.note("type_role_pairs_enumerated", len(covered))
     if ctx.nworkers == 1 and not mine and not ctx.budget_hit:
         ctx.exhaustive = True
         ctx.note("exhaustive_over", "message type 0..255 x role (payloads sampled)")
 
     # part 2: hypothesis-drawn sessions (random order, repeated types, type 3 mixed in)
-    case_st = st.tuples(st.sampled_from(["client", "server"]), st.lists(st.tuples(st.integers(0, 255), payloads, st.sampled_from([None, None, None, "puppet", "tested"])), min_size=1, max_size=6))
-    ctx.explore(case_st, lambda c: probe_session(ctx, c[0], c[1]), ctx.scale(60, 600), shrink=False, seed_offset=1)
+    case_st = st.tuples(st.sampled_from(["client", "server"]), st.lists(st.tuples(st.integers(0, 255), payloads, st.sampled_from([None, None, None, "puppet", "tested", "cross", "cross"])), min_size=1, max_size=6), logcfgs)
+    ctx.explore(case_st, lambda c: probe_session(ctx, c[0], c[1], log=c[2]), ctx.scale(80, 800), shrink=False, seed_offset=1)
 
 
 def replay(ctx, case):
-    probe_session(ctx, case["role"], [tuple(p) for p in case["probes"]])
+    probe_session(ctx, case["role"], [tuple(p) for p in case["probes"]], log=case.get("log"))
